@@ -188,9 +188,8 @@ def verify_unit(reg, idx: SourceIndex, c: Contract, timeout_ms=None, seed=0, dis
                 for i, cond in enumerate(c.must_raise):
                     cv = eng.truth(eng.spec_eval(cond, env, o.st, mod, c), o.st)
                     ctx.oblige(f"must-raise/cond{i}", o.st, z3.Not(cv), kind="exc-missed", info={"path": ctx.paths})
-                if c.logs is not None:
-                    lv = eng._int(eng.as_sym(eng.spec_eval(c.logs, env, o.st, mod, c)))
-                    ctx.oblige("post/warnings-logged", o.st, env["_warnings"].d == lv, kind="post")
+                if c.is_silent:
+                    ctx.oblige("post/logs-no-warning", o.st, env["_warnings"].d == 0, kind="post", info={"path": ctx.paths})
             elif o.kind == "raise":
                 ec = exc_class(o.exc) if o.exc != "FrozenInstanceError" else AttributeError
                 hit = None
@@ -218,7 +217,15 @@ def verify_unit(reg, idx: SourceIndex, c: Contract, timeout_ms=None, seed=0, dis
                 raise BindingLost(f"loop spec {key} of {c.name} was never reached/bound")
         for g in c.ghosts:
             if id(g) not in eng.ghost_hits:
-                raise BindingLost(f"ghost anchor {g.anchor!r} not found in {c.name}")
+                # never executed: fine if the anchor statement still exists in the source
+                where = g.where or eng.unit_qualname
+                finfo = idx.funcs.get(f"{info.module}:{where}")
+                present = False
+                if finfo is not None:
+                    saved = eng.unit
+                    present = any(x is g for x in eng.ghosts_inside(finfo.node.body))
+                if not present:
+                    raise BindingLost(f"ghost anchor {g.anchor!r} not found in {c.name}")
         if n_normal == 0 and (c.ensures or c.result is not None) and not c.always_raises:
             res.notes.append("no normally returning path")
         res.paths = ctx.paths
